@@ -548,6 +548,19 @@ impl<'src> Walker<'src>
 		{
             let c = self.char_at(byte_index);
 
+            // Comments are not part of the instruction: they neither
+            // contain the wanted character nor count as an operand
+            if c == ';'
+            {
+                let token = self.token_at(byte_index);
+
+                if token.kind == syntax::TokenKind::Comment
+                {
+                    byte_index = self.get_index_at_span_end(token.span);
+                    continue;
+                }
+            }
+
             if c.eq_ignore_ascii_case(&wanted_char) &&
                 seen_tokens &&
                 paren_nesting == 0 &&
